@@ -127,8 +127,8 @@ def check(ctx, env):
                            exclude_fn=(lambda b: b.crate == "stun_rs") if False else None)
         st["reachable_functions"] = len(seen)
         stats[cfg] = st
-        ctx.floor("R3.1", "reachable functions (%s)" % cfg, len(seen), 250 if cfg == "agent" else 300)
-        ctx.floor("R3.1", "panic sites inventoried (%s)" % cfg, st["sites"], 120 if cfg == "agent" else 80)
+        ctx.floor("R3.1", "reachable functions (%s)" % cfg, len(seen), 200 if cfg == "agent" else 250)
+        ctx.floor("R3.1", "panic sites inventoried (%s)" % cfg, st["sites"], 80 if cfg == "agent" else 55)   # vacuity guards, well below today's 135 / 93: a refactoring may remove sites
     if env.tier == "thorough":
         # every feature subset of stun-rs (a #[cfg] mismatch only exists in specific subsets)
         from .. import extract
